@@ -92,6 +92,56 @@ theorem varIds_distinct (evs : List Ev) (hu : addrsUnique evs) (hf : toksFresh e
   have := (hJ.vdef a d o h1).2.2.2.1
   omega
 
+/-- what the import promises for the token `t` that looked up address `a`.  Tokens carry their map names here: `2 * index` when the
+    token is spelt like an identifier (`update_property_info` then derives `eVariable` from the varId), `2 * index + 1` otherwise
+    (`~C`, `<NoName>`); `Imported.attrs i = rawAttrs (encOf toks i)`. -/
+def LinkedImport (im : Imported) (a : Addr) (t : Nat) : Prop :=
+  match declAt im.events a with
+  | some ⟨.var, d, o⟩ => (im.rawAttrs t).varId = (im.rawAttrs d).varId ∧ (im.rawAttrs d).varId ≠ 0 ∧
+      (t % 2 = 0 → (im.rawAttrs t).var = some o) ∧ (d % 2 = 0 → (im.rawAttrs d).var = some o)
+  | some ⟨.func, _, o⟩ => t % 2 = 0 → (im.rawAttrs t).func = some o
+  | some ⟨.enumr, _, o⟩ => t % 2 = 0 → (im.rawAttrs t).enumr = some o
+  | some ⟨.scope, _, _⟩ => t % 2 = 0 → im.rawAttrs t = {}
+  | none => t % 2 = 0 → im.rawAttrs t = {}
+
+/-- (iii) composed with the import: the token attributes a successful model import returns ARE the result of running its logged
+    declaration-map calls (`importDump_data`: the import can change the map through `Log.emit` only), so whenever those calls satisfy the
+    hypotheses (measured on every real dump, evidence `theorem_hypotheses_on_real_dumps`) every use the import issued is linked to the
+    declaration with the referenced address. -/
+theorem import_uses_linked {file0 text : Str} {im : Imported} (h : importDump file0 text = .ok im)
+    (hu : addrsUnique im.events) (hf : toksFresh im.events) (ho : objsFresh im.events)
+    (hn : im.events.all (fun e => !isReplace e) = true) :
+    ∀ a t, Ev.ref a t ∈ im.events → LinkedImport im a t := by
+  intro a t hr
+  have hL := use_links_referenced im.events hu hf ho hn a t hr
+  have hS := Sim.run im.events Sim.init
+  have eqOf : ∀ u, u % 2 = 0 → (runEvents initData im.events).attrs u = (runEvents {} im.events).attrs u := by
+    intro u hu
+    have hs := hS.attrs u
+    exact hs.same (by rw [hs.name]; simp [hu])
+  unfold LinkedImport
+  unfold Linked at hL
+  rw [(importDump_data h).1]
+  cases hd : declAt im.events a with
+  | none =>
+    rw [hd] at hL
+    intro ht; rw [eqOf t ht]; exact hL.1
+  | some d =>
+    rw [hd] at hL
+    obtain ⟨k, dt, o⟩ := d
+    cases k with
+    | var =>
+      simp only at hL ⊢
+      obtain ⟨l1, l2, l3, l4⟩ := hL
+      refine ⟨?_, ?_, ?_, ?_⟩
+      · rw [(hS.attrs t).varId, (hS.attrs dt).varId]; exact l2
+      · rw [(hS.attrs dt).varId]; exact l4
+      · intro ht; rw [eqOf t ht]; exact l1
+      · intro ht; rw [eqOf dt ht]; exact l3
+    | func => simp only at hL ⊢; intro ht; rw [eqOf t ht]; exact hL
+    | enumr => simp only at hL ⊢; intro ht; rw [eqOf t ht]; exact hL
+    | scope => simp only at hL ⊢; intro ht; rw [eqOf t ht]; exact hL
+
 /-- the hypotheses are satisfiable: two uses before their declarations, one after, one never declared -/
 def sampleEvents : List Ev :=
   [.ref "0x2".toList 0, .varDecl "0x1".toList 1 0, .ref "0x1".toList 2, .ref "0x2".toList 3, .varDecl "0x2".toList 4 1,
